@@ -1,5 +1,6 @@
 import SaModel.Lemmas.C01Struct
 import SaModel.Lemmas.C10TakePush
+import SaModel.Lemmas.C01DefaultAt
 /-
 R1 for the operations that do not recurse over a serde value: `serialize_default` (k placeholders),
 `serialize_none`, and the scalar calls (`pushScalar`), for every builder family.
@@ -23,6 +24,8 @@ theorem isNullable_takeRest : ∀ (b : B), (takeRest b).isNullable = b.isNullabl
   | .dictionary _ idx _ _ => by simp only [takeRest, B.isNullable]; exact isNullable_takeRest idx
   | .union _ _ _ _ _ => rfl
 
+theorem isPlaceholder_takeRest (b : B) : (takeRest b).isPlaceholder = b.isPlaceholder := by cases b <;> rfl
+
 mutual
 theorem DefSafe_takeRest : ∀ (b : B), DefSafe (takeRest b) ↔ DefSafe b
   | .null _ _ => by simp [takeRest, DefSafe]
@@ -37,12 +40,15 @@ theorem DefSafe_takeRest : ∀ (b : B), DefSafe (takeRest b) ↔ DefSafe b
   | .struct _ _ _ fs _ _ _ => by simp only [takeRest, DefSafe]; exact DefSafeL_takeRest fs
   | .dictionary _ idx _ _ => by
     simp only [takeRest, DefSafe, isNullable_takeRest]; rw [DefSafe_takeRest idx]
-  | .union _ .nil _ _ _ => by simp [takeRest, takeRestAll, DefSafe, DefSafeHead]
-  | .union _ (.cons c _ _) _ _ _ => by
-    simp only [takeRest, takeRestAll, DefSafe, DefSafeHead]; exact DefSafe_takeRest c
+  | .union _ fs _ _ _ => by simp only [takeRest, DefSafe]; exact DefSafeFirst_takeRest fs
 theorem DefSafeL_takeRest : ∀ (fs : BL), DefSafeL (takeRestAll fs) ↔ DefSafeL fs
   | .nil => by simp [takeRestAll, DefSafeL]
   | .cons b _ r => by simp only [takeRestAll, DefSafeL]; rw [DefSafe_takeRest b, DefSafeL_takeRest r]
+theorem DefSafeFirst_takeRest : ∀ (fs : BL), DefSafeFirst (takeRestAll fs) ↔ DefSafeFirst fs
+  | .nil => by simp [takeRestAll, DefSafeFirst]
+  | .cons b _ r => by
+    simp only [takeRestAll, DefSafeFirst, isPlaceholder_takeRest]
+    rw [DefSafe_takeRest b, DefSafeFirst_takeRest r]
 end
 
 theorem isDict_takeRest (b : B) : (takeRest b).isDict = b.isDict := by cases b <;> rfl
@@ -274,22 +280,26 @@ theorem pushDefaultK_appends : ∀ (b : B) (k : Nat) (b' : B), WFB b → DefSafe
     · simp [fail] at h
   | .union p (.cons c m rest) types offs cur, k, b', hwf, hsafe, h => by
     simp only [pushDefaultK, ctx_ok] at h
-    obtain ⟨c', h1, h2⟩ := (bind_ok _ _ _).1 h
-    cases h2
-    have hw' := hwf
-    simp only [WFB, WFU] at hw'
-    simp only [DefSafe, DefSafeHead] at hsafe
-    obtain ⟨hc, ls, hls, hdec, _⟩ := pushDefaultK_appends c k c' hw'.2.2.1.1 hsafe h1
-    obtain ⟨g1, g2⟩ := union_append hwf 0 c c' m rfl ls hc hdec
-    have hc0 : cur.getD 0 0 = ((dec c).length : Int) := by
-      have := hw'.2.2.1.2.1
-      cases cur with
-      | nil => simp at this
-      | cons a t => simpa using this
-    subst hls
-    simp only [BL.set, Int.natCast_zero] at g1 g2
-    rw [hc0]
-    refine ⟨g1, ls.map (LVal.union 0), by simp, g2, by intro h; cases h⟩
+    split at h
+    · simp [fail] at h
+    · obtain ⟨fs', h1, h2⟩ := (bind_ok _ _ _).1 h
+      cases h2
+      obtain ⟨cj, mj, hg⟩ := firstReal_get c m rest
+      rw [pushDefaultKAt_eq _ _ k cj mj hg] at h1
+      obtain ⟨c', h3, h4⟩ := (bind_ok _ _ _).1 h1
+      cases h4
+      have hw' := hwf
+      simp only [WFB] at hw'
+      simp only [DefSafe] at hsafe
+      obtain ⟨hcur, hwc⟩ := WFU_get _ cur _ (cj, mj) hw'.2.2.1 hg
+      obtain ⟨hc, ls, hls, hdec, _⟩ := pushDefaultK_appends_at _ _ cj mj hg k c' hwc
+        (DefSafeFirst_get _ cj mj hsafe hg) h3
+      obtain ⟨g1, g2⟩ := union_append hwf _ cj c' mj hg ls hc hdec
+      have hc0 : cur.getD (firstReal (.cons c m rest)) 0 = ((dec cj).length : Int) := by
+        simp only [List.getD_eq_getElem?_getD, hcur, Option.getD_some]
+      subst hls
+      rw [hc0]
+      exact ⟨g1, ls.map (LVal.union _), by simp, g2, by intro h; cases h⟩
 theorem pushDefaultKAll_appends : ∀ (fs : BL) (k : Nat) (fs' : BL) (len : Nat), WFL fs len → DefSafeL fs →
     pushDefaultKAll fs k = .ok fs' → ∃ adds, ExtL fs fs' adds ∧ ∀ a ∈ adds, a.length = k
   | .nil, k, fs', len, _, _, h => by
@@ -309,6 +319,15 @@ theorem pushDefaultKAll_appends : ∀ (fs : BL) (k : Nat) (fs' : BL) (len : Nat)
     rcases List.mem_cons.1 ha with rfl | ha
     · exact hls
     · exact hk a ha
+theorem pushDefaultK_appends_at : ∀ (fs : BL) (j : Nat) (c : B) (m : FieldMeta), fs.get? j = some (c, m) →
+    ∀ (k : Nat) (c' : B), WFB c → DefSafe c → pushDefaultK c k = .ok c' →
+    WFB c' ∧ ∃ ls, ls.length = k ∧ dec c' = dec c ++ ls ∧ (c.isNullable = true → ls = List.replicate k .null)
+  | .nil, _, _, _, h => by simp [BL.get?] at h
+  | .cons b _ _, 0, c, m, h => by
+    simp only [BL.get?, Option.some.injEq, Prod.mk.injEq] at h
+    rw [← h.1]
+    exact fun k c' => pushDefaultK_appends b k c'
+  | .cons _ _ rest, j + 1, c, m, h => pushDefaultK_appends_at rest j c m (by simpa [BL.get?] using h)
 end
 
 /-! ### `serialize_none` -/
@@ -419,6 +438,8 @@ theorem pushNone_appends : ∀ (b b' : B), WFB b → Safe b → pushNone b = .ok
     rwa [rowOf_false_of_isSome hs] at this
   | .dictionary p idx vals index, b', hwf, hsafe, h => by
     simp only [pushNone, ctx_ok] at h
+    split at h
+    · simp [fail] at h
     obtain ⟨idx', h1, h2⟩ := (bind_ok _ _ _).1 h
     cases h2
     have hw' := hwf
